@@ -272,6 +272,7 @@ def make_variants(case, files, seed, tier):
         var("history-" + h, history=h)
     var("clock-start", clock={"seed": 7, "start": REF_CLOCK["start"] + 40 * 86400.0})
     var("clock-back", clock={"seed": 3, "start": REF_CLOCK["start"], "back_at": 3})
+    var("clock-tz", clock={"seed": 5, "start": REF_CLOCK["start"] + 11 * 3600.0, "tz": rng.choice(["XYZ-14", "ABC+11:30", "Asia/Tokyo"])})
     for i in range(1 if tier == "quick" else 3):
         p = srcs[:]
         rng.shuffle(p)
@@ -288,7 +289,8 @@ def spec_for(sb, argv, dims, heap_pad=0):
     argv = list(argv)
     if dims["parallel"]:
         argv += ["--config", "parallel = %d" % dims["parallel"]]
-    spec = {"sandbox": sb, "cwd": sb + "/p", "argv": argv, "mode": "full", "order_plan": dims["order"],
+    env = {"TZ": dims["clock"]["tz"]} if dims["clock"].get("tz") else {}
+    spec = {"sandbox": sb, "cwd": sb + "/p", "argv": argv, "mode": "full", "order_plan": dims["order"], "env": env,
             "dir_order": dims["dir"], "clock": dims["clock"], "heap_pad": heap_pad,
             "pool": {"sim": True, "seed": dims["pool_seed"]} if dims.get("pool_real") is not True else None}
     return spec
@@ -664,7 +666,7 @@ def main():
                     rep.violation(sig, what + " [regression corpus %s]" % fn,
                                   {"case": case["case"], "variant": var, "seed_used": case["seed_used"], "observed": detail})
         rep.cov["fixed_regressions_passed"] = n_corpus
-        n_worlds = args.worlds or (36 if args.tier == "quick" else 1500)
+        n_worlds = args.worlds or (30 if args.tier == "quick" else 1500)
         budget = args.budget or (80 if args.tier == "quick" else 1500)
         tasks = [(args.seed, i, args.tier, batch) for i in range(n_worlds)]
         to_min = []
